@@ -694,3 +694,21 @@ func flowOffender(v ssa.Value, isSource func(ssa.Value) bool, allowed func(*ssa.
 	rec(v, 0)
 	return offender, reached
 }
+
+// funcValueOperands: functions used as values (not as the callee) by ins.
+func funcValueOperands(ins ssa.Instruction) []*ssa.Function {
+	var out []*ssa.Function
+	var callee ssa.Value
+	if ci, ok := ins.(ssa.CallInstruction); ok {
+		callee = ci.Common().Value
+	}
+	for _, op := range ins.Operands(nil) {
+		if op == nil || *op == nil || *op == callee {
+			continue
+		}
+		if f, ok := (*op).(*ssa.Function); ok {
+			out = append(out, f)
+		}
+	}
+	return out
+}
